@@ -155,7 +155,9 @@ func c20resp(c *run.Ctx) {
 					if !cacheHeadersOK(rec.Header()) {
 						viol("cache-headers-missing", "WriteRevocationResponse", fmt.Sprint(rec.Header()))
 					}
-					if strings.Contains(rec.Body.String(), debugCanary) || strings.Contains(rec.Body.String(), hintCanary) {
+					// debug detail only when the operator enabled it; a hint (which the other writers put into error_description
+					// too) is not debug detail
+					if !expose && strings.Contains(rec.Body.String(), debugCanary) {
 						viol("debug-leaked", "WriteRevocationResponse", rec.Body.String())
 					}
 					if rec.Body.Len() > 0 {
